@@ -22,7 +22,7 @@ from .simfs import SimFS, SimUnsupported
 CACHE_DIR = "/SIMFS/cache"
 CACHE_NAME = "simcache"
 
-RES_FAULTS = ("NOTFOUND", "ERR_BEFORE", "ERR_MID", "ERR_AFTER", "RET_FALSE_BEFORE", "RET_FALSE_MID")
+RES_FAULTS = ("NOTFOUND", "ERR_BEFORE", "ERR_MID", "ERR_AFTER", "RET_FALSE_BEFORE", "RET_FALSE_MID", "INTERRUPT_MID")
 NET_FAULTS = ("HTTP_404", "HTTP_5XX", "CONN_ERR", "TIMEOUT")
 FS_FAULTS = ("EIO", "ENOSPC", "SHORT_WRITE", "EMFILE", "SRC_MISSING", "RENAME_EIO")
 PP_FAULTS = ("PP_ERR_BEFORE", "PP_ERR_MID", "PP_ERR_AFTER")
@@ -428,12 +428,15 @@ class World:
         failed_quietly = False
         with open(filepath, "wb") as f:
             for i, piece in enumerate(pieces):
-                if kind in ("ERR_MID", "RET_FALSE_MID") and i == min(fault.get("k", 1), len(pieces) - 1):
+                if kind in ("ERR_MID", "RET_FALSE_MID", "INTERRUPT_MID") and i == min(fault.get("k", 1), len(pieces) - 1):
                     if len(pieces) == 1:
                         f.write(piece[:len(piece) // 2])
                     if kind == "RET_FALSE_MID":
                         failed_quietly = True
                         break
+                    if kind == "INTERRUPT_MID":
+                        # the user hits Ctrl-C part-way through a (sequential) download
+                        raise KeyboardInterrupt()
                     raise InjectedError("injected: connection lost part-way through %s" % uri)
                 f.write(piece)
                 self.sched("net.chunk", uri, len(piece))
@@ -766,7 +769,7 @@ class World:
             crashed = True
         except (HarnessAbort, SimUnsupported):
             raise
-        except Exception as e:  # the code under test raised to its caller
+        except (Exception, KeyboardInterrupt) as e:  # the code under test raised to its caller
             obs.exc = e
         if self.sched.crashed and not crashed:
             # the crash exception was replaced or swallowed on its way up (e.g. by an error raised from a
